@@ -62,12 +62,12 @@ YieldOf(h, p) ==
   LET it == h[p[1]].items[p[2]] IN
   IF it.val # 0 THEN it.val
   ELSE IF h[p[1]].k = "tagged" THEN NOVAL ELSE DfltOf(it.key)
-\* result: a multiset, as a function value -> multiplicity
+\* result: a multiset, as a sequence of <<value, multiplicity>>
 TagIter(h, root, t) ==
   LET rb == {o \in Reach(h, root) : IsBuildableKind(h[o].k) \/ h[o].k = "tagged"}
       ps == {p \in MatchPositions(h, t) : p[1] \in rb}
       vals == {YieldOf(h, p) : p \in ps}
-  IN [v \in vals |-> Cardinality({p \in ps : YieldOf(h, p) = v})]
+  IN MsSeq([v \in vals |-> Cardinality({p \in ps : YieldOf(h, p) = v})])
 
 TagUnion(h, root) ==
   LET rb == {o \in Reach(h, root) : IsBuildableKind(h[o].k) \/ h[o].k = "tagged"} IN
